@@ -193,7 +193,10 @@ pub open spec fn flat_of(s: Seq<&[u8]>) -> Seq<u8>
     if s.len() == 0 { Seq::<u8>::empty() } else { flat_of(s.drop_last()) + s.last()@ }
 }
 impl<'a> Chunks<'a> {
-    pub uninterp spec fn flat(&self) -> Seq<u8>;
+    /// the pieces still to come, in order (prophetic: what `next` is going to return)
+    pub uninterp spec fn rest(&self) -> Seq<&'a [u8]>;
+    /// their concatenation
+    pub open spec fn flat(&self) -> Seq<u8> { flat_of(self.rest()) }
     #[verifier::external_body]
     pub fn of0() -> (r: Chunks<'a>) ensures r.flat() == Seq::<u8>::empty() { unimplemented!() }
     #[verifier::external_body]
@@ -214,6 +217,30 @@ impl<'a> Chunks<'a> {
     pub fn chain(self, other: Chunks<'a>) -> (r: Chunks<'a>) ensures r.flat() == self.flat() + other.flat() { unimplemented!() }
     #[verifier::external_body]
     pub fn into_iter(self) -> (r: Chunks<'a>) ensures r.flat() == self.flat() { unimplemented!() }
+}
+/// the two generic chunk loops of src/serialization/mod.rs (`for bytes in iter`) are verified against this iterator model:
+/// `next` yields the pieces of `rest()` one by one and then None (assumed of every `impl Iterator<Item = &[u8]>` the crate builds)
+impl<'a> Iterator for Chunks<'a> {
+    type Item = &'a [u8];
+    #[verifier::external_body]
+    fn next(&mut self) -> (r: Option<&'a [u8]>) { unimplemented!() }
+}
+impl<'a> vstd::std_specs::iter::IteratorSpecImpl for Chunks<'a> {
+    open spec fn obeys_prophetic_iter_laws(&self) -> bool { true }
+    open spec fn remaining(&self) -> Seq<&'a [u8]> { self.rest() }
+    open spec fn will_return_none(&self) -> bool { true }
+    open spec fn decrease(&self) -> Option<nat> { Some(self.rest().len()) }
+    open spec fn peek(&self, i: int) -> Option<&'a [u8]> { if 0 <= i < self.rest().len() { Some(self.rest()[i]) } else { None } }
+}
+/// `digest::Update` / `hmac::Mac` as far as the two loops use them: absorbing bytes appends them to the message
+pub trait Update: Sized {
+    spec fn absorbed(&self) -> Seq<u8>;
+    fn update(&mut self, data: &[u8]) ensures final(self).absorbed() == old(self).absorbed() + data@;
+    fn chain(self, data: &[u8]) -> (r: Self) ensures r.absorbed() == self.absorbed() + data@;
+}
+pub trait Mac: Sized {
+    spec fn absorbed(&self) -> Seq<u8>;
+    fn update(&mut self, data: &[u8]) ensures final(self).absorbed() == old(self).absorbed() + data@;
 }
 /// `Iterator<Item = &u8>` in the two XOR loops (rule R6)
 #[verifier::external_body]
